@@ -16,7 +16,12 @@ BIG = 1 << 130
 
 INT_BITS = {"u8": (8, False), "u16": (16, False), "u32": (32, False), "u64": (64, False), "usize": (64, False), "u128": (128, False),
             "i8": (8, True), "i16": (16, True), "i32": (32, True), "i64": (64, True), "isize": (64, True), "i128": (128, True)}
-MAXLEN = (1 << 63) - 1
+# Lengths of collections that EXIST in memory.  The language guarantees isize::MAX bytes per object; no 64-bit target has a
+# user address space above 2^56 bytes (x86-64 LA57: 2^56, aarch64 LVA: 2^52), so an existing slice / vector of T holds at
+# most 2^56 / size_of::<T>() elements.  This is an assumption of the C14 analysis (listed in its evidence); it is used only
+# to bound lengths of existing objects, never requested allocation sizes.
+MAXBYTES = 1 << 56
+MAXLEN = MAXBYTES - 1
 
 
 def int_range(ty):
